@@ -465,6 +465,14 @@ def scenario_conc(s, pop, bop, nhandlers, line_yields):
         def clear(self):
             labels.append((who(), "clear", 0))
             dict.clear(self)
+
+        def items(self):
+            labels.append((who(), "scan", 0))
+            return dict.items(self)
+
+        def values(self):
+            labels.append((who(), "scan", 0))
+            return dict.values(self)
     ctx._rpc_object_map = LogDict(ctx._rpc_object_map)
     router = ctx._message_router
     orig_unreg, orig_reg = router.unregister_message_handler, router.register_message_handler
@@ -516,6 +524,7 @@ def scenario_conc(s, pop, bop, nhandlers, line_yields):
             obs["b"] = ["exc", type(e).__name__]
 
     nbase = len(st["born"])
+    obs["lab0"] = len(labels)
     s.recording = True
     bt = real_threading.Thread(target=body, name="B")
     bt.start()
@@ -590,6 +599,43 @@ def oracle_conc(pop, bop, res):
     if [h for h in o["handlers"] if h != "$pubsub"] or o["objmap"] or o["active"]:
         return "conc:%s:tables" % kind, "after stop: handlers %r objmap %r active %r" % (o["handlers"], o["objmap"], o["active"])
     return None
+
+
+BRES = {"QMI_UnknownNameException": "BUnknown", "QMI_InvalidOperationException": "BInvalid",
+        "QMI_DuplicateNameException": "BDup", "RuntimeError": "BCtor", "QMI_TaskInitException": "BCtor"}
+LABS = {"unreg": "LUnreg", "unreg-failed": "LUnregFail", "stopped": "LStopped", "reserve": "LReserve", "publish": "LPublish",
+        "reg": "LReg", "delname": "LDelname", "delname-keyerror": "LDelnameErr"}
+
+
+def coq_conc_case(pop, bop, o, reg_atomic):
+    """The recorded effects of one run as a path of the interleaving model (ConcModel.v) + the observed outcome."""
+    tr, collected, bseen = [], False, False
+    for who, kind, k in [tuple(x) for x in o["labels"][o["lab0"]:]]:
+        if who == "A":
+            if kind == "scan":
+                if not collected:
+                    tr.append("(true, LCollect)")
+                    collected = True
+            elif kind in ("unreg", "unreg-failed", "stopped"):
+                tr.append("(true, %s %d)" % (LABS[kind], k))
+        elif who == "B":
+            if kind in LABS:
+                tr.append("(false, %s %d)" % (LABS[kind], k))
+                bseen = True
+        elif kind == "born" and bop[0] == "make" and k == bop[1]:
+            tr.append("(false, LBorn %d)" % k)
+            bseen = True
+    b = o["b"] or ["exc", "?"]
+    bres = "BOk" if b[0] == "ok" else BRES.get(b[1], "BOther")
+    if b[0] == "exc" and not bseen and bres in ("BUnknown", "BInvalid", "BDup"):
+        if bres == "BDup":
+            tr.insert(0, "(false, LRaise BDup)")      # the duplicate check precedes stop's collect region
+        else:
+            tr.append("(false, LRaise %s)" % bres)
+    order = [0] + [p[0] for p in pop]
+    return "(%s, %d, %s, %s, %s, %s, (%s, %s, %d, %d))" % (
+        cbool(reg_atomic), bop[1], cbool(bop[3] if bop[0] == "make" else True), clist([str(x) for x in order]),
+        cbool(bop[0] == "make"), clist(tr), cbool(o["a"] == ["ok"]), bres, len(o["rel"]), o["threads"].get("_RpcThread", 0))
 
 
 def gen_conc(rng):
@@ -1043,7 +1089,7 @@ def run_conc(ck):
                     "runs": res["runs"], "exhausted_within_preemption_bound": res["exhausted"], "bound": 2}
                 continue
             dfs.append(((pop, bop, nh, False, "replay", None), res))
-    outcomes = {}
+    terms, tmeta, flagged = [], [], {}
     for (pop, bop, nh, ly, strat, seed), res in list(zip(meta, results)) + dfs:
         o = res.get("obs") or {}
         ck.note_case(("conc", pop, bop, nh, ly, res.get("choices")), True)
@@ -1057,7 +1103,35 @@ def run_conc(ck):
                       {"concurrent": True, "pop": [list(x) for x in pop], "bop": list(bop), "nhandlers": nh, "line_yields": ly,
                        "strategy": strat, "seed": seed, "schedule": res.get("choices"), "status": res["status"],
                        "labels": o.get("labels"), "stop_outcome": o.get("a"), "other_outcome": o.get("b")})
+        if res["status"] == "ok":
+            flagged[len(terms)] = bad
+            terms.append((coq_conc_case(pop, bop, o, True), coq_conc_case(pop, bop, o, False)))
+            tmeta.append({"concurrent": True, "pop": [list(x) for x in pop], "bop": list(bop), "nhandlers": nh, "line_yields": ly,
+                          "strategy": strat, "seed": seed, "schedule": res.get("choices"), "labels": o.get("labels"),
+                          "stop_outcome": o.get("a"), "other_outcome": o.get("b")})
     ck.coverage["concurrent_runs"] = len(meta) + len(dfs)
+    # trace acceptance: every run must be a path of the interleaving model with the handler registered inside the
+    # publishing region (what C12 needs); runs that are paths only of the model of the tree as it is must be exactly the
+    # ones the oracle flagged
+    badi = ck.run_model("C12.ConcCorr", "check_case", [t[0] for t in terms], "case", shard=150)
+    only_cur = set()
+    if badi:
+        sub = ck.run_model("C12.ConcCorr", "check_case", [terms[i][1] for i in badi], "case", shard=150)
+        only_cur = set(badi) - set(badi[j] for j in sub)
+    ck.coverage["concurrent_runs_accepted_by_model"] = len(terms) - len(badi)
+    ck.coverage["concurrent_runs_accepted_only_by_current_tree_model"] = len(only_cur)
+    nrep = 0
+    for i in badi:
+        fl = flagged.get(i)
+        if i in only_cur and fl and fl[0] == "conc:make:stop-unregisters-before-make-registers":
+            continue
+        if nrep >= 3:
+            break
+        nrep += 1
+        ck.report("corr-conc:%s:%s" % (tmeta[i]["bop"][0], "oracle-fails" if fl else "model-differs"),
+                  "a real schedule of %s racing with stop() is not a path of the interleaving model (or ends in another outcome)%s" % (
+                      tmeta[i]["bop"][0], ": " + fl[1] if fl else "; the property oracle passes on it"),
+                  dict(tmeta[i], broken="correspondence C12.ConcCorr.check_case (trace acceptance)"), found_input=bool(fl))
 
 
 def replay_conc(c):
